@@ -15,7 +15,7 @@ pub struct World {
     pub cwd_name: u8,    // 0 d0, 1 space, 2 unicode, 3 long, 4 very long (>512 bytes)
     pub rel: u8,         // 0 script in cwd, 1 in sub dir, 2 in parent dir
     pub file_name: u8,   // 0 a.sd, 1 space, 2 unicode, 3 no extension, 4 non-UTF-8 bytes, 5 a file named `-`
-    pub spelling: u8,    // 0 plain, 1 ./, 2 .//, 3 detour zz/../, 4 absolute, 5 symlinked dir, 6 symlink to file, 12 `symlink/../name` with a same-named decoy in cwd, 13 /dev/stdin and 14 /proc/self/fd/0 with stdin open on the script; fault spellings (set explicitly): 7 trailing slash, 8 directory, 9 symlink loop, 10 missing, 11 longer than PATH_MAX
+    pub spelling: u8,    // 0 plain, 1 ./, 2 .//, 3 detour zz/../, 4 absolute, 5 symlinked dir, 6 symlink to file, 12 `symlink/../name` with a same-named decoy in cwd, 13 /dev/stdin and 14 /proc/self/fd/0 with stdin open on the script, 15 /dev/stdin with the script unlinked after opening; fault spellings (set explicitly): 7 trailing slash, 8 directory, 9 symlink loop, 10 missing, 11 longer than PATH_MAX
     pub argv0: u8,       // 0 exe path, 1 "seed", 2 "./odd name"
     pub env_kind: u8,    // 0 minimal, 1 typical, 2 junk
     pub locale: u8,      // 0 unset, 1 C, 2 en_US.UTF-8, 3 tr_TR.UTF-8, 4 nonsense
@@ -95,7 +95,7 @@ impl World {
             "cwd_name" => self.cwd_name = 1 + rng.below(4) as u8,
             "rel" => self.rel = 1 + rng.below(2) as u8,
             "file_name" => self.file_name = [1, 2, 3, 5][rng.usize_below(4)],
-            "spelling" => self.spelling = [1, 2, 3, 4, 5, 6, 12, 13, 14][rng.usize_below(9)],
+            "spelling" => self.spelling = [1, 2, 3, 4, 5, 6, 12, 13, 14, 15][rng.usize_below(10)],
             "argv0" => self.argv0 = 1 + rng.below(2) as u8,
             "env_kind" => self.env_kind = 1 + rng.below(2) as u8,
             "locale" => self.locale = 1 + rng.below(4) as u8,
@@ -208,7 +208,7 @@ impl World {
             "cwd_name" | "locale" | "stdin" | "script_mode" => 4,
             "stdout" | "stderr" => 6,
             "env_bytes" | "rlimit" => 6,
-            "spelling" => 9,
+            "spelling" => 10,
             _ => 0,
         }
     }
